@@ -5,6 +5,7 @@ import HcipyVerif.Lemmas.SchedulerTerm
 import HcipyVerif.Lemmas.SchedulerHist
 import HcipyVerif.Lemmas.SchedulerStrong
 import HcipyVerif.Lemmas.SchedulerClock
+import HcipyVerif.Lemmas.SchedulerRef
 
 /-!
 # C20 — Time evolution fires each scheduled callback once, in order, at its time
@@ -47,6 +48,13 @@ Round 4 (sections at the end of the file): fuel independence (`loop_fuel_mono`, 
 callbacks that read the clock — `loopC`/`stepOpC`/`runOpsC` are runs of `loop`/`stepOp`/`runOps`
 (`loopC_exists_kids`, `loopC_transfer`, `loopC_eq_loop_table`, `runOpsC_eq_runOps`); the hypotheses
 decided by the driver (`addsFromB_spec`, `noFuelOutB_spec`, `sortedB_spec`).
+
+Round 5 (sections at the end of the file): times are stored by value — the reference machine
+`stepG`/`runG` over World = system + caller cells (`stored_by_value`, `mutation_irrelevant`,
+`Bad.byReference_counterexample`); a callback that raises and a caller that resumes
+(`interrupted_resume`, `evolveUntil_interrupted_resume`, `interrupted_entry_lost`); totality with an
+explicit fuel for progressing systems (`evolve_total_of_progress`, `evolve_total_of_progress_single`,
+`evolveUntil_spec_total`: the fuel-parameterised statement for the real unbounded loop).
 
 Hypotheses used (each has a satisfiability `example` at the end of the file):
 * `Inv s`   — the queue is what `add_callback` builds (sorted, counters unique and below the
@@ -1277,5 +1285,242 @@ theorem addsFromB_spec (f : Hist → Rat) (kids : Entry → List (Rat × Nat)) (
 /-- the flag `nofuelout=` decides the hypothesis `NoFuelOut` -/
 theorem noFuelOutB_spec (kids : Entry → List (Rat × Nat)) (fuel : Nat) (ops : List Op) :
     noFuelOutB kids fuel hinit ops = true ↔ NoFuelOut kids fuel ops := noFuelOutB_iff kids fuel ops
+
+/-! ### Round 5 — time arguments are stored by value (World = system + the caller's mutable cells)
+
+`stepG`/`runG` (Model/SchedulerRef.lean) run a *caller program*: calls that hand over values or
+references to caller-owned cells, and in-place mutations of those cells in between.  Under the
+policy `copy` (the code: `copy.copy(t)` in `add_callback`, `self.t = copy.copy(t_next)`) the history
+is the value-level history `resolve` — every call with the value its argument had at that moment —
+so a later mutation of a cell that is not handed over again changes nothing.  Under `alias`
+(`Bad.byReference`, the code without the copies) it does. -/
+
+/-- **Times are stored by value.**  Whatever the caller does to its cells between the calls, the
+history of the system under the `copy` policy is `runOps` on the value-level history `resolve`, and
+no queue entry aliases a cell. -/
+theorem stored_by_value (kids : Entry → List (Rat × Nat)) (fuel : Nat) (ops : List ROp) :
+    ∀ w : World, w.refs = [] →
+      (runG .copy kids fuel w ops).h = runOps kids fuel w.h (resolve w.cells ops) ∧
+      (runG .copy kids fuel w ops).refs = [] := by
+  induction ops with
+  | nil => intro w hw; exact ⟨rfl, hw⟩
+  | cons op ops ih =>
+    intro w hw
+    have hr : (stepG .copy kids fuel w op).refs = [] := by rw [stepG_copy_refs, hw]
+    have := ih (stepG .copy kids fuel w op) hr
+    have hh := stepG_copy_h kids fuel w hw op
+    simp only [runG, List.foldl_cons] at this ⊢
+    rw [this.1, hh]
+    refine ⟨?_, this.2⟩
+    cases op with
+    | add a id => simp only [resolve, runOps, List.foldl_cons]; rfl
+    | evolve a => simp only [resolve, runOps, List.foldl_cons]; rfl
+    | mutate c x => simp only [resolve]; rfl
+
+/-- **The run is independent of later mutations of caller cells**: overwriting a cell that no later
+call hands over leaves the whole history (clock, queue, trace, created entries) as it would have
+been without the mutation — in particular after `add_callback(arr, f)` the caller may go on using
+`arr`. -/
+theorem mutation_irrelevant (kids : Entry → List (Rat × Nat)) (fuel : Nat) (w : World)
+    (hw : w.refs = []) (c : Nat) (x : Rat) (ops : List ROp)
+    (hr : ∀ op ∈ ops, op.reads c = false) :
+    (runG .copy kids fuel (stepG .copy kids fuel w (.mutate c x)) ops).h =
+      (runG .copy kids fuel w ops).h := by
+  rw [(stored_by_value kids fuel ops w hw).1,
+    (stored_by_value kids fuel ops (stepG .copy kids fuel w (.mutate c x)) hw).1]
+  show runOps kids fuel w.h (resolve (setCell w.cells c x) ops) = _
+  rw [resolve_congr c ops (setCell w.cells c x) w.cells ?_ hr]
+  intro j hj
+  simp [setCell, hj]
+
+example : winit.refs = [] := rfl
+example : ∀ op ∈ [ROp.add (.ref 1) 3, ROp.mutate 0 7, ROp.evolve (.val 2)], op.reads 0 = false := by
+  decide
+
+/-- the caller program `arr[...] = 1; add_callback(arr, f7); arr[...] = 5; evolve_until(2)` -/
+def aliasOps : List ROp := [.mutate 0 1, .add (.ref 0) 7, .mutate 0 5, .evolve (.val 2)]
+
+/-- **`Bad.byReference`: storing the reference is not storing the value.**  On `aliasOps` the code
+as it is (`copy`) runs the callback at time 1; the by-reference scheduler never runs it before the
+target 2 (its queued time moved to 5 with the caller's array), and leaves it queued at time 5. -/
+theorem Bad.byReference_counterexample :
+    fired (runG .copy noKids 5 winit aliasOps).h.trace = [⟨1, 0, 7⟩] ∧
+    (runG .copy noKids 5 winit aliasOps).h.s.queue = [] ∧
+    fired (Bad.byReference noKids 5 winit aliasOps).h.trace = [] ∧
+    (Bad.byReference noKids 5 winit aliasOps).h.s.queue = [⟨5, 0, 7⟩] := by
+  decide +kernel
+
+/-! ### Round 5 — exceptions raised by a callback, and resuming
+
+`evolve_until` pops the due entry *before* it calls the callback (`heapq.heappop` in the loop head),
+and has already bridged the interval to it.  A callback that raises after its work therefore leaves
+the system exactly in the state `loop` is in when its fuel runs out at that callback: the entry is
+gone from the queue (it is *not* retried), the clock stands at (within `eps` below) its time, the
+children it scheduled are queued.  The harness replays this with a callback that raises after the
+N-th execution against the model on fuel N. -/
+
+/-- **Interrupted and resumed = uninterrupted.**  If the `n`-th callback raises (fuel `n` runs out)
+and the caller calls `evolve_until(T)` again, the two traces concatenated, the final state and the
+status are those of the uninterrupted run: nothing is lost, nothing runs twice. -/
+theorem interrupted_resume (kids : Entry → List (Rat × Nat)) (T : Rat) (n m : Nat) (s : Sys)
+    (h : (loop kids T n s).status = .outOfFuel) :
+    loop kids T (n + m) s =
+      { loop kids T m (loop kids T n s).s with
+        trace := (loop kids T n s).trace ++ (loop kids T m (loop kids T n s).s).trace } :=
+  loop_split' kids T n m s h
+
+/-- the same for the public call: after the interruption the clock is not beyond `T`, so the second
+`evolve_until(T)` is accepted and completes the run -/
+theorem evolveUntil_interrupted_resume (kids : Entry → List (Rat × Nat)) (T : Rat) (n m : Nat) (s : Sys)
+    (hT : s.t ≤ T) (h : (evolveUntil kids n s T).status = .outOfFuel) :
+    evolveUntil kids (n + m) s T =
+      { evolveUntil kids m (evolveUntil kids n s T).s T with
+        trace := (evolveUntil kids n s T).trace ++ (evolveUntil kids m (evolveUntil kids n s T).s T).trace } := by
+  have hn : ¬ T < s.t := not_lt.mpr hT
+  simp only [evolveUntil, hn, if_false] at h ⊢
+  have h2 : ¬ T < (loop kids T n s).s.t := not_lt.mpr (loop_clock_end_any kids T n s hT).1
+  simp only [h2, if_false]
+  exact loop_split' kids T n m s h
+
+/-- **The entry whose callback raised is lost, not retried**: every callback executed before the
+interruption (the raising one is the last of them) is absent from the queue left behind, and exactly
+`n` callbacks were executed. -/
+theorem interrupted_entry_lost (kids : Entry → List (Rat × Nat)) (T : Rat) (n : Nat) (s : Sys)
+    (hi : InvQ s) (h : (loop kids T n s).status = .outOfFuel) :
+    (fired (loop kids T n s).trace).length = n ∧
+    ∀ e ∈ fired (loop kids T n s).trace, e ∉ (loop kids T n s).s.queue := by
+  refine ⟨fired_length_eq_fuel kids T n s h, ?_⟩
+  intro e he hq
+  have hnd : (fired (loop kids T n s).trace ++ (loop kids T n s).s.queue).Nodup :=
+    (loop_perm kids T n s).nodup_iff.mpr (nodup_queue_spawnedQ hi _)
+  exact (List.nodup_append.mp hnd).2.2 e he e hq rfl
+
+example : (loop selfNow 2 3 (addCallback init 1 0)).status = .outOfFuel :=
+  (diverges_zero_delay_reinsertion 3).1
+
+example : (addCallback init 1 0).t ≤ 2 ∧ (evolveUntil selfNow 3 (addCallback init 1 0) 2).status = .outOfFuel ∧
+    InvQ (addCallback init 1 0) :=
+  ⟨by decide +kernel, by decide +kernel, (inv_addCallback inv_init 1 0 (by simp [init])).toQ⟩
+
+/-! #### … and a callback that raises *before* doing anything (`loopX`, the executed definition) -/
+
+/-- without raising callbacks `loopX` is `loop` -/
+theorem loopX_no_raise (kids : Entry → List (Rat × Nat)) (T : Rat) (fuel : Nat) (s : Sys) :
+    loopX kids (fun _ => false) T fuel s = ⟨loop kids T fuel s, none⟩ :=
+  loopX_no_raise' kids T fuel s
+
+/-- **The state after an exception, exactly.**  If the callback of entry `e` raises, the run up to
+there (status, clock, queue, counter, trace) is the run of `loop` whose fuel runs out at that
+callback, with the callback of `e` scheduling nothing; `e` is an entry that raises.  Hence every
+hypothesis-free theorem of this file (conservation, exactly-once, tiling, clock lag) holds of the
+interrupted run, and `interrupted_resume` / `interrupted_entry_lost` apply to it. -/
+theorem raise_eq_fuel_out (kids : Entry → List (Rat × Nat)) (raises : Entry → Bool) (T : Rat)
+    (fuel : Nat) (s : Sys) (e : Entry) (h : (loopX kids raises T fuel s).raisedAt = some e) :
+    raises e = true ∧
+    (loopX kids raises T fuel s).run =
+      loop (kidsExcept kids e) T (fired (loopX kids raises T fuel s).run.trace).length s :=
+  ⟨loopX_raisedAt_raises kids raises T fuel s e h, loopX_raise_eq_loop' kids raises T fuel s e h⟩
+
+/-- **The entry whose callback raised is lost, the clock stands at its stop**: it is the last callback
+in the trace, it is not in the queue left behind, and no other executed callback is. -/
+theorem raise_entry_lost (kids : Entry → List (Rat × Nat)) (raises : Entry → Bool) (T : Rat)
+    (fuel : Nat) (s : Sys) (hi : InvQ s) (e : Entry)
+    (h : (loopX kids raises T fuel s).raisedAt = some e) :
+    (loopX kids raises T fuel s).run.status = .outOfFuel ∧
+    (∀ x ∈ fired (loopX kids raises T fuel s).run.trace, x ∉ (loopX kids raises T fuel s).run.s.queue) := by
+  have hb := (raise_eq_fuel_out kids raises T fuel s e h).2
+  have hst : (loopX kids raises T fuel s).run.status = .outOfFuel := by
+    clear hb
+    induction fuel generalizing s with
+    | zero => simp [loopX]
+    | succ fuel ih =>
+      match hq : s.queue with
+      | [] => simp [loopX, hq] at h
+      | x :: rest =>
+        by_cases ht : x.time < T
+        · by_cases hr : raises x = true
+          · simp only [loopX, hq, ht, if_true, hr]
+          · simp only [loopX, hq, ht, if_true, hr, Bool.false_eq_true, if_false] at h ⊢
+            have hi' : InvQ (addAll (advance { s with queue := rest } (x.time - s.t)).1 (kids x)) :=
+              (next_invQ hi hq : InvQ (next kids s x rest))
+            exact ih _ hi' h
+        · simp [loopX, hq, ht] at h
+  refine ⟨hst, ?_⟩
+  have hst' := hst
+  rw [hb] at hst'
+  rw [hb]
+  exact (interrupted_entry_lost (kidsExcept kids e) T _ s hi hst').2
+
+example : (loopX noKids (fun e => e.ctr == 0) 2 5 (addCallback init 1 0)).raisedAt = some ⟨1, 0, 0⟩ := by
+  decide +kernel
+
+/-! ### Round 5 — the termination criterion the code has, with an explicit fuel
+
+If every callback due before the target schedules its children at least `δ > 0` after its own time
+(at most `B` of them), `evolve_until(T)` returns, and the model's fuel is immaterial: an explicit
+number `N` of iterations suffices, every fuel `≥ N` gives the very same run, and fewer than `N`
+callbacks are executed.  So for such systems the fuel-parameterised theorems of this file are
+statements about the real unbounded `while` loop (`evolveUntil_spec_total`). -/
+
+/-- **Totality under progress.**  `N = |queue| · (1 + B + … + B^(n-1)) + 1`, `n = ⌈(T - t)/δ⌉`. -/
+theorem evolve_total_of_progress {kids : Entry → List (Rat × Nat)} {δ T : Rat} {B : Nat}
+    (hδ : 0 < δ) (hprog : ∀ e, e.time < T → ∀ c ∈ kids e, e.time + δ ≤ c.1)
+    (hB : ∀ e, e.time < T → (kids e).length ≤ B) (s : Sys) (hi : Inv s) (hT : s.t ≤ T) :
+    (evolveUntil kids (s.queue.length * geom B ⌈(T - s.t) / δ⌉₊ + 1) s T).status = .ok ∧
+    (∀ fuel, s.queue.length * geom B ⌈(T - s.t) / δ⌉₊ + 1 ≤ fuel →
+      evolveUntil kids fuel s T =
+        evolveUntil kids (s.queue.length * geom B ⌈(T - s.t) / δ⌉₊ + 1) s T) ∧
+    (fired (evolveUntil kids (s.queue.length * geom B ⌈(T - s.t) / δ⌉₊ + 1) s T).trace).length
+      ≤ s.queue.length * geom B ⌈(T - s.t) / δ⌉₊ := by
+  have hok : (evolveUntil kids (s.queue.length * geom B ⌈(T - s.t) / δ⌉₊ + 1) s T).status = .ok := by
+    have hn : ¬ T < s.t := not_lt.mpr hT
+    simp only [evolveUntil, hn, if_false]
+    exact terminates_if_progress_bound hδ hprog hB s hi _ (Nat.lt_succ_self _)
+  refine ⟨hok, ?_, ?_⟩
+  · intro fuel hf
+    obtain ⟨k, rfl⟩ := Nat.exists_eq_add_of_le hf
+    exact evolveUntil_fuel_mono kids _ s T (by rw [hok]; decide) k
+  · have hn : ¬ T < s.t := not_lt.mpr hT
+    simp only [evolveUntil, hn, if_false] at hok ⊢
+    exact Nat.lt_succ_iff.mp (fired_length_lt_fuel kids T _ s hok)
+
+/-- **Self-re-insertion** (`B = 1`, the docstring's periodic callback): within
+`|queue| · ⌈(T - t)/δ⌉` callbacks (+ 1 iteration for the final stretch) the call returns. -/
+theorem evolve_total_of_progress_single {kids : Entry → List (Rat × Nat)} {δ T : Rat}
+    (hδ : 0 < δ) (hprog : ∀ e, e.time < T → ∀ c ∈ kids e, e.time + δ ≤ c.1)
+    (h1 : ∀ e, e.time < T → (kids e).length ≤ 1) (s : Sys) (hi : Inv s) (hT : s.t ≤ T) :
+    ∀ fuel, s.queue.length * ⌈(T - s.t) / δ⌉₊ + 1 ≤ fuel →
+      (evolveUntil kids fuel s T).status = .ok ∧
+      (fired (evolveUntil kids fuel s T).trace).length ≤ s.queue.length * ⌈(T - s.t) / δ⌉₊ := by
+  intro fuel hf
+  have := evolve_total_of_progress hδ hprog h1 s hi hT
+  simp only [geom_one] at this
+  rw [this.2.1 fuel hf]
+  exact ⟨this.1, this.2.2⟩
+
+/-- **The whole statement for the real, unbounded loop** of a progressing system: no fuel and no
+"the call returns" hypothesis — `evolveUntil_spec` for every sufficient fuel, all giving one run. -/
+theorem evolveUntil_spec_total {kids : Entry → List (Rat × Nat)} {δ T : Rat} {B : Nat} (hk : WF kids)
+    (hδ : 0 < δ) (hprog : ∀ e, e.time < T → ∀ c ∈ kids e, e.time + δ ≤ c.1)
+    (hB : ∀ e, e.time < T → (kids e).length ≤ B) (s : Sys) (hi : Inv s) (hT : s.t ≤ T) :
+    ∀ fuel, s.queue.length * geom B ⌈(T - s.t) / δ⌉₊ + 1 ≤ fuel →
+      let r := evolveUntil kids fuel s T
+      r.status = .ok ∧
+      Inv r.s ∧ sumDt r.trace = r.s.t - s.t ∧ r.s.t ≤ T ∧ T - r.s.t ≤ eps ∧
+      (∀ q ∈ r.s.queue, T ≤ q.time) ∧ Sorted (fired r.trace) ∧
+      (∀ e clk, Event.fire e clk ∈ r.trace → clk ≤ e.time ∧ e.time - clk ≤ eps ∧ e.time < T) ∧
+      (∀ q ∈ s.queue, (q.time < T → q ∈ fired r.trace) ∧ (T ≤ q.time → q ∈ r.s.queue)) := by
+  intro fuel hf
+  have h := evolve_total_of_progress hδ hprog hB s hi hT
+  have hok : (evolveUntil kids fuel s T).status = .ok := by rw [h.2.1 fuel hf]; exact h.1
+  exact ⟨hok, evolveUntil_spec hk T fuel s hi hT hok⟩
+
+example : WF demoKids ∧ (0 : Rat) < 1 ∧ (∀ e, e.time < (3 : Rat) → ∀ c ∈ demoKids e, e.time + 1 ≤ c.1) ∧
+    (∀ e, e.time < (3 : Rat) → (demoKids e).length ≤ 1) ∧ Inv demoSys ∧ demoSys.t ≤ 3 := by
+  refine ⟨?_, by norm_num, ?_, ?_, ?_, by decide +kernel⟩
+  · intro e c hc; unfold demoKids at hc; split at hc <;> simp at hc; rw [hc]; simp
+  · intro e _ c hc; unfold demoKids at hc; split at hc <;> simp at hc; rw [hc]
+  · intro e _; unfold demoKids; split <;> simp
+  · exact inv_addAll inv_init _ (by decide +kernel)
 
 end HcipyVerif.Scheduler
